@@ -68,7 +68,7 @@ ValuesB == {Mp(ps) : ps \in {x \in Seqs(PairB, 2) : NoDupKeys(x)}} \cup {Arr(<<>
 PreC == {"int","uint","nint","tstr","text","bool","true","false","nil","null","any","float","number"}
 IntsC == {0, 1, 2, 3, 5, -1, -2, -3, 255, 256, 65535, 65536}
 RangesC == {Rng(I(a), I(b), incl) : a \in {-2, 0, 1}, b \in {1, 3, 255}, incl \in BOOLEAN}
-CtlC == {CtlT("size", Ref("uint"), Lit(I(n))) : n \in {0, 1, 2}} \cup {CtlT("size", Ref("tstr"), Lit(I(n))) : n \in {0, 1, 2}}
+CtlC == {CtlT("size", Ref("uint"), Lit(I(n))) : n \in {0, 1, 2, 4, 8, 16}} \cup {CtlT("size", Ref("tstr"), Lit(I(n))) : n \in {0, 1, 2}}
         \cup {CtlT(op, Ref(t), Lit(I(n))) : op \in {"lt","le","gt","ge","eq","ne"}, t \in {"int","uint","nint"}, n \in {-2, 0, 2}}
         \cup {CtlT(op, Ref("tstr"), Lit(Tx(A))) : op \in {"eq","ne"}}
         \cup {CtlT(op, Ref("int"), Ref("uint")) : op \in {"and","within"}} \cup {CtlT("and", Rng(I(0), I(3), TRUE), Rng(I(2), I(5), TRUE))}
@@ -77,7 +77,7 @@ T1C == {Ref(n) : n \in PreC} \cup {Lit(I(n)) : n \in {0, 1, -1, 256}} \cup {Lit(
 SchemasC == {Root1(t) : t \in T1C} \cup {<<Rule("root", Ty(<<a, b>>))>> : a \in {Ref("uint"), Lit(I(1)), Ref("tstr")}, b \in {Ref("nil"), Lit(Tx(A)), Rng(I(-2), I(1), FALSE)}}
 ValuesC == {I(n) : n \in IntsC} \cup {Tx(A), Tx(<<>>), Tx(<<97,98>>), Tx(<<233>>), F15, F25, F(<<191,240,0,0,0,0,0,0>>), Bo(TRUE), Bo(FALSE), Nul, Arr(<<>>), Mp(<<>>)}
            \cup {[k |-> "int", neg |-> FALSE, mag |-> <<127,255,255,255,255,255,255,255>>], [k |-> "int", neg |-> TRUE, mag |-> <<127,255,255,255,255,255,255,255>>],
-                 [k |-> "int", neg |-> FALSE, mag |-> <<255,255,255,255,255,255,255,255>>], [k |-> "int", neg |-> FALSE, mag |-> <<1,0,0,0,0>>]}
+                 [k |-> "int", neg |-> FALSE, mag |-> <<255,255,255,255,255,255,255,255>>], [k |-> "int", neg |-> FALSE, mag |-> <<1,0,0,0,0>>], [k |-> "int", neg |-> FALSE, mag |-> <<255,255,255,255>>]}
 
 \* ---- scope D: rule graphs (references, /=, //=, group rules, recursion)
 IntT == Ty(<<Ref("int")>>)  TstrT == Ty(<<Ref("tstr")>>)
